@@ -51,7 +51,8 @@ def main():
             cls, name = t.split("::", 1)
             ids.append(cls.replace(".", "/") + ".py::" + name)
         fd2, junit2 = tempfile.mkstemp(suffix=".xml", dir="/dev/shm"); os.close(fd2)
-        subprocess.run(["/venv/bin/python", "-m", "pytest", "-q", "-p", "no:cacheprovider", "--timeout=900", "-n", "2",
+        # the retry runs without pytest-timeout: the tests that fail under load carry 20-40 s timeout marks
+        subprocess.run(["/venv/bin/python", "-m", "pytest", "-q", "-p", "no:cacheprovider", "-p", "no:timeout", "-o", "markers=timeout: ignored in the retry", "-n", "2",
                         f"--junitxml={junit2}", *ids], cwd=tree, env=env, stdout=subprocess.PIPE, stderr=subprocess.STDOUT, text=True)
         try:
             for tc in ET.parse(junit2).getroot().iter("testcase"):
